@@ -10,7 +10,8 @@ PROP = {
             "Scenario stable: seeded histories of 3..10 calls on one client (slice-returning reads of every kind with valid, missing, "
             "corrupted or foreign-frame-first replies; writes whose argument IS an earlier result; other calls); every returned slice is "
             "kept and re-compared, spare capacity included, with its first snapshot after every later call; the model runs the same "
-            "history on its heap and re-reads the earlier result slices.",
+            "history on its heap and re-reads the earlier result slices."
+            " The alias scenario also re-reads the caller's storage while the request is on the wire (inside the peer's Write hook): it must be unchanged during the call, not only after it.",
     "assumptions": [
         "Go language semantics of slices as modelled in Model/Heap.v: append stores in place iff len + n <= cap and otherwise allocates "
         "(the growth policy is a universally quantified argument of every theorem), make allocates a fresh array, a slice expression "
